@@ -15,6 +15,7 @@ from props.c05 import shared_conf, conf_untouched, contrast_conf, decoded_alone
 from spacepackets.cfdp.conf import PduConfig
 from spacepackets.cfdp.defs import (
     PduType, Direction, TransmissionMode, CrcFlag, LargeFileFlag, SegmentationControl, ConditionCode,
+    SegmentMetadataFlag,
 )
 from spacepackets.cfdp.pdu.file_directive import FileDirectivePduBase, DirectiveType
 from spacepackets.cfdp.pdu.ack import AckPdu, TransactionStatus
@@ -39,25 +40,27 @@ def _conf(a) -> PduConfig:
     return PduConfig(source_entity_id=UnsignedByteField(a["src_v"], a["src_w"]),
                      dest_entity_id=UnsignedByteField(a["dst_v"], a["dst_w"]),
                      transaction_seq_num=UnsignedByteField(a["seq_v"], a["seq_w"]),
-                     trans_mode=TransmissionMode(a["mode"]), file_flag=LargeFileFlag(a["large"]),
-                     crc_flag=CrcFlag(a["crc"]), direction=Direction(a["dir"]),
-                     seg_ctrl=SegmentationControl(a["segctrl"]))
+                     trans_mode=_m(TransmissionMode, a["mode"]), file_flag=_m(LargeFileFlag, a["large"]),
+                     crc_flag=_m(CrcFlag, a["crc"]), direction=_m(Direction, a["dir"]),
+                     seg_ctrl=_m(SegmentationControl, a["segctrl"]))
 
 
 def _hdr_fields(h) -> Dict[str, Any]:
     s, d, q = h.source_entity_id, h.dest_entity_id, h.transaction_seq_num
-    return {"ptype": int(h.pdu_type), "segmeta": int(h.segment_metadata_flag), "dlen": int(h.pdu_data_field_len),
+    return {"ptype": _code(PduType, h.pdu_type), "segmeta": _code(SegmentMetadataFlag, h.segment_metadata_flag),
+            "dlen": int(h.pdu_data_field_len),
             "src_w": int(s.byte_len), "src_v": int(s.value), "dst_w": int(d.byte_len), "dst_v": int(d.value),
             "seq_w": int(q.byte_len), "seq_v": int(q.value),
-            "mode": int(h.transmission_mode), "large": int(h.file_flag), "crc": int(h.crc_flag),
-            "dir": int(h.direction), "segctrl": int(h.seg_ctrl),
+            "mode": _code(TransmissionMode, h.transmission_mode), "large": _code(LargeFileFlag, h.file_flag),
+            "crc": _code(CrcFlag, h.crc_flag), "dir": _code(Direction, h.direction),
+            "segctrl": _code(SegmentationControl, h.seg_ctrl),
             "header_len": int(h.header_len), "packet_len": int(h.packet_len),
             "conf_header_len": int(h.pdu_conf.header_len()), "large_set": bool(h.large_file_flag_set)}
 
 
 def _fd_fields(fd) -> Dict[str, Any]:
     f = _hdr_fields(fd.pdu_header)
-    f.update(code=int(fd.directive_type), dir_header_len=int(fd.header_len),
+    f.update(code=_code(DirectiveType, fd.directive_type), dir_header_len=int(fd.header_len),
              param_len=int(fd.directive_param_field_len))
     if int(fd.packet_len) != f["packet_len"] or int(fd.pdu_data_field_len) != f["dlen"]:
         raise SelfCheckFailure("file directive base and its header disagree on packet_len / pdu_data_field_len")
@@ -75,21 +78,21 @@ def _pdu_common(p, code: Optional[int]) -> Dict[str, Any]:
         raise SelfCheckFailure("packet_len / header_len of the PDU differ from those of its base")
     if int(p.pdu_data_field_len) != f["dlen"] or int(p.file_flag) != f["large"] or int(p.crc_flag) != f["crc"]:
         raise SelfCheckFailure("pdu_data_field_len / file_flag / crc_flag views differ from the header")
-    if code is not None and int(p.directive_type) != code:
+    if code is not None and _code(DirectiveType, p.directive_type) != code:
         raise SelfCheckFailure(f"directive_type {int(p.directive_type)} != {code}")
     return f
 
 
 def _ack_fields(p: AckPdu):
     f = _pdu_common(p, DIR_CODES["ack"])
-    f.update(acked=int(p.directive_code_of_acked_pdu), subtype=int(p.directive_subtype_code),
-             cond=int(p.condition_code_of_acked_pdu), status=int(p.transaction_status))
+    f.update(acked=_code(DirectiveType, p.directive_code_of_acked_pdu), subtype=int(p.directive_subtype_code),
+             cond=_code(ConditionCode, p.condition_code_of_acked_pdu), status=_code(TransactionStatus, p.transaction_status))
     return f
 
 
 def _prompt_fields(p: PromptPdu):
     f = _pdu_common(p, None)
-    f.update(resp=int(p.response_required))
+    f.update(resp=_code(ResponseRequired, p.response_required))
     return f
 
 
@@ -208,12 +211,19 @@ def _pack_fails(p) -> Dict[str, Any]:
 
 
 def _enum(en, v: int):
-    """the IntEnum member when there is one, the plain int otherwise (the library takes both; the shrinker of the
-    framework may lower a value to a non-member)"""
-    try:
-        return en(v)
-    except ValueError:
-        return v
+    """the member with the STANDARD NAME of the code (what an application writes; core.std_member); for a code without one
+    the IntEnum member of that value when there is one, the plain int otherwise (the library takes both; the shrinker of
+    the framework may lower a value to a non-member)"""
+    return core.std_member(en, v)
+
+
+def _m(en, v: int):
+    """the member an application writes for the code `v`: the member of `en` with the STANDARD NAME of the code
+    (core.std_member; `en(v)` for a code without a standard name, ValueError for a non-member as before)"""
+    return core.std_member(en, v, strict=True)
+
+
+_code = core.std_code    # int(code read back), after `code == en.NAME  <=>  it is the standard's code for NAME`
 
 
 # ---- base ----
@@ -258,7 +268,7 @@ def op_fdir_unpack(a):
 
 def op_fdir_set(a):
     fd = _fd(a)
-    fd.file_flag = LargeFileFlag(a["n_large"])
+    fd.file_flag = _m(LargeFileFlag, a["n_large"])
     fd.directive_param_field_len = a["n_plen"]
     f = _fd_fields(fd)
     f["raw"] = hx(fd.pack())
@@ -354,7 +364,7 @@ def _after_setter(p, cls, fields):
 
 def op_ka_set_file_flag(a):
     p = _ka(a)
-    p.file_flag = LargeFileFlag(a["n_large"])
+    p.file_flag = _m(LargeFileFlag, a["n_large"])
     return _after_setter(p, KeepAlivePdu, _ka_fields)
 
 
@@ -391,7 +401,7 @@ def op_nak_set_segs(a):
 
 def op_nak_set_file_flag(a):
     p = _nak(a)
-    p.file_flag = LargeFileFlag(a["n_large"])
+    p.file_flag = _m(LargeFileFlag, a["n_large"])
     return _after_setter(p, NakPdu, _nak_fields)
 
 
@@ -648,6 +658,9 @@ class C06Fixed(Prop):
         if int(PduType.FILE_DIRECTIVE) != 0 or int(LargeFileFlag.LARGE) != 1 or int(LargeFileFlag.NORMAL) != 0 \
                 or int(CrcFlag.WITH_CRC) != 1:
             d.append("FILE_DIRECTIVE / LARGE / NORMAL / WITH_CRC values")
+        # every member the ops use BY NAME against the tables of the standard (a swap leaves the set of values intact)
+        d += core.std_table_diffs((DirectiveType, TransactionStatus, ResponseRequired, ConditionCode, PduType, Direction,
+                                   TransmissionMode, CrcFlag, LargeFileFlag, SegmentationControl))
         return d
 
     def nontrivial(self, c: Case) -> bool:
